@@ -27,6 +27,7 @@ def leaf_defs():
         Enum("F64", [("lo", 1), ("hi", 2**63)], base="uint64", flags=True),
         Record("RT", [("a", P("int8")), ("b", P("float32"))]),
         Record("RT2", [("a", P("uint8")), ("b", P("bool")), ("c", P("float64")), ("d", P("complexfloat32"))]),
+        Record("RT3", [("c", P("float64")), ("a", P("uint8"))]),      # fixed-width fields with trailing padding in C++
         Record("RS", [("s", P("string")), ("o", Opt(P("int32"))), ("v", Vec(P("int32")))]),
         Alias("AP", P("uint32")),
         Alias("AC", Vec(P("int16"))),
@@ -42,7 +43,7 @@ def leaf_defs():
 
 def leaves(level=1):
     out = [P(p) for p in am.PRIMS]
-    out += [N("E"), N("E8"), N("E64"), N("F"), N("F64"), N("RT"), N("RT2"), N("RS"), N("AP"), N("AC"), N("AO"),
+    out += [N("E"), N("E8"), N("E64"), N("F"), N("F64"), N("RT"), N("RT2"), N("RT3"), N("G1", P("float64")), N("RS"), N("AP"), N("AC"), N("AO"),
             N(IMP_NS + ".IR"), N(IMP_NS + ".IE"), N(IMP_NS + ".IV"), N(IMP_NS + ".IG", P("int32")),
             N("G", P("int32")), N("G", N("E")), N("GA", P("string")), N("G2", P("uint16"), N("RT2")),
             N("G2", P("string"), N("RT2")), N("G2", P("string"), N("RT")), N("GU", P("int32")), N("GU", N("E")), N("GU", P("date")),
@@ -317,3 +318,63 @@ def pack(shape_list, namespace, per_protocol=25, per_package=100, with_records=T
         pkg = Package(ns, defs=defs, protocols=protos, imports=[imp], dirname=ns.lower())
         pkgs.append((pkg, index))
     return pkgs
+
+
+# ------------------------------------------------------------------ step-pattern package (adjacent / empty streams)
+def pattern_package(maxlen=4, namespace="Pat"):
+    """All protocols over {N = non-stream int32 step, S = stream of int32, R = stream of RS records} of length <= maxlen
+    (N/S only beyond length 3), so that every adjacency of empty / non-empty streams and scalars occurs."""
+    pats = []
+    for n in range(1, maxlen + 1):
+        alpha = "NSR" if n <= 3 else "NS"
+        for pat in itertools.product(alpha, repeat=n):
+            if "S" in pat or "R" in pat:
+                pats.append("".join(pat))
+    protos = []
+    for pat in pats:
+        steps = []
+        for i, c in enumerate(pat):
+            steps.append(("s%d" % i, P("int32") if c == "N" else Stream(P("int32")) if c == "S" else Stream(N("RS"))))
+        protos.append(Protocol("Q" + pat.lower(), steps))
+    return Package(namespace, defs=[d for d in leaf_defs() if d.name == "RS"], protocols=protos, dirname=namespace.lower()), pats
+
+
+def pattern_executions(pat):
+    """Every assignment of stream lengths in {0, 1, 3} to the stream steps, with single-block and one-item-block partitions."""
+    lens = [(0, 1, 3) if c != "N" else (None,) for c in pat]
+    out = []
+    for combo in itertools.product(*lens):
+        vals, parts = [], {}
+        for i, (c, n) in enumerate(zip(pat, combo)):
+            if c == "N":
+                vals.append(7 + i)
+            elif c == "S":
+                vals.append([10 * (i + 1) + j for j in range(n)])
+            else:
+                vals.append([["s%d" % j, (j if j % 2 else None), [j] * j] for j in range(n)])
+            if c != "N" and n == 3:
+                parts[i] = [1, 2]
+        out.append((vals, parts))
+    return out
+
+
+# ------------------------------------------------------------------ buffer family (64 KiB staging buffers)
+BUF = 65536
+
+
+def buffer_package(namespace="Buf"):
+    """Protocols `pad: string; v: T; tail: !stream T; last: int32` for every codec path T, and long-stream protocols."""
+    types = [("u8", P("uint8")), ("i32", P("int32")), ("i64", P("int64")), ("u64", P("uint64")), ("f32", P("float32")), ("f64", P("float64")),
+             ("c64", P("complexfloat64")), ("str", P("string")), ("dt", P("datetime")), ("e", N("E64")), ("rt", N("RT")),
+             ("rt3", N("RT3")), ("rs", N("RS")), ("vf32", Vec(P("float32"))), ("vi32", Vec(P("int32"))), ("vrt3", Vec(N("RT3"))),
+             ("fv", Vec(P("float64"), 3)), ("fa", Arr(P("float32"), [2, 3])), ("na", Arr(P("int16"), 2)), ("da", Arr(P("float64"), None)),
+             ("opt", Opt(P("int64"))), ("un", Union(P("int32"), P("string"))), ("m", Map(P("string"), P("int32"))), ("g", N("G1", P("float64")))]
+    protos = []
+    for name, t in types:
+        protos.append(Protocol("B" + name, [("pad", P("string")), ("v", t), ("tail", Stream(t)), ("last", P("int32"))]))
+    longs = [("lf64", P("float64")), ("lvf32", Vec(P("float32"))), ("lrt3", N("RT3")), ("lfa", Arr(P("float32"), [2, 3])), ("lstr", P("string")),
+             ("lrs", N("RS")), ("lna", Arr(P("float32"), 1)), ("li32", P("int32"))]
+    for name, t in longs:
+        protos.append(Protocol("L" + name, [("head", t), ("items", Stream(t)), ("big", Vec(t)), ("last", P("int32"))]))
+    defs = [d for d in leaf_defs() if d.name in ("E64", "RT", "RT3", "RS", "G1")]
+    return Package(namespace, defs=defs, protocols=protos, dirname=namespace.lower()), types, longs
